@@ -55,6 +55,25 @@ func hxCheckLineLen(line []byte) {
 	svReach("long-token-line")
 }
 
+// hxCheckPartHeaderLineLen is hxCheckLineLen for the header section of a MIME
+// part that carries a long file name or description (own label: see
+// known_findings.json).
+func hxCheckPartHeaderLineLen(line []byte) {
+	if len(line) <= 78 {
+		return
+	}
+	j := 0
+	for j < len(line) && (line[j] == ' ' || line[j] == '\t') {
+		j++
+	}
+	for ; j < len(line); j++ {
+		if line[j] == ' ' {
+			svAssert(false, "part-header-line-too-long (long file name or description in a MIME part header)")
+			return
+		}
+	}
+}
+
 var hxKeyLens = []int{1, 7, 40, 60, 64, 66, 68, 69, 70, 71, 72, 73, 74, 75, 76, 77, 78, 90}
 
 // Short fully symbolic values (blank positions decided by the solver) with
@@ -193,6 +212,7 @@ func HarnessC18Message() {
 	svReach("rendered")
 	out := w.buf
 	start := 0
+	inHeader, partLevel := true, false
 	for i := 0; i < len(out); i++ {
 		c := out[i]
 		if c == '\n' {
@@ -204,7 +224,19 @@ func HarnessC18Message() {
 				svAssert(false, "bare-CR")
 				return
 			}
-			hxCheckLineLen(out[start:i])
+			line := out[start:i]
+			switch {
+			case len(line) == 0:
+				inHeader = false
+			case len(line) > 2 && line[0] == '-' && line[1] == '-':
+				// a boundary delimiter: the header section of a part follows
+				inHeader, partLevel = true, true
+			}
+			if inHeader && partLevel && long {
+				hxCheckPartHeaderLineLen(line)
+			} else {
+				hxCheckLineLen(line)
+			}
 			i++
 			start = i + 1
 		}
